@@ -329,6 +329,12 @@ def run(R):
     with R.guard('C20.R6'):
         check_recovered_status(R, R.crate('tonic'), 'C20.R6', ('code', 'message', 'details', 'metadata'))
 
+    # ---------------------------------------------------------------- R7 the details header is written, once, and wins
+    R.describe('C20.R7', 'Status::add_header writes grpc-status-details-bin whenever details are attached (no early return for a message-less status) and after the user metadata (a forwarded grpc-status-details-bin entry cannot overwrite the attached details)')
+    with R.guard('C20.R7'):
+        import C04
+        C04.check_status_writer(R, R.crate('tonic'), 'C20.R7')
+
     # ---------------------------------------------------------------- R4 inner status = outer status
     R.describe('C20.R4', 'the embedded google.rpc.Status is built from the same code and message as the outer tonic::Status, always (also with no details attached)')
     with R.guard('C20.R4'):
